@@ -7,23 +7,44 @@ import json, os, shutil, subprocess, sys
 V = "/verif"
 args = [a for a in sys.argv[1:] if not a.startswith("--")]
 inplace = "--inplace" in sys.argv
+# --lane=K/N : process every N-th seed starting with the K-th, in an own scratch worktree and cargo target directory (several lanes run side by side);
+#              results go to seeded/RESULTS.lane-K.json (merge with --merge)
+lane = [a for a in sys.argv[1:] if a.startswith("--lane=")]
+LANE = lane[0].split("=")[1] if lane else None
 man = json.load(open(V + "/MANIFEST.json"))
 props = [c["property_id"] for c in man["checks"]]
 seeds = args or sorted(d for d in os.listdir(V + "/seeded") if os.path.isdir(V + "/seeded/" + d))
+if "--merge" in sys.argv:
+    import glob
+    res = json.load(open(V + "/seeded/RESULTS.json"))
+    for f in sorted(glob.glob(V + "/seeded/RESULTS.lane-*.json")):
+        res.update(json.load(open(f)))
+        os.remove(f)
+    json.dump(res, open(V + "/seeded/RESULTS.json", "w"), indent=1, sort_keys=True)
+    sys.exit(0)
+RUN = "/tmp/seedrun"
+RESFILE = V + "/seeded/RESULTS.json"
+if LANE:
+    k, n = (int(x) for x in LANE.split("/"))
+    seeds = [s for s in seeds if os.path.exists("%s/seeded/%s/patch.diff" % (V, s))][k::n]
+    RUN = "/tmp/seedrun-%d" % k
+    RESFILE = V + "/seeded/RESULTS.lane-%d.json" % k
 res = {}
-if os.path.exists(V + "/seeded/RESULTS.json"):
+if os.path.exists(V + "/seeded/RESULTS.json") and not LANE:
     res = json.load(open(V + "/seeded/RESULTS.json"))
 env = dict(os.environ)
 if inplace:
     repo = "/repo"
     assert subprocess.run(["git", "-C", "/repo", "status", "--porcelain"], capture_output=True, text=True).stdout.strip() == "", "/repo not clean"
 else:
-    repo = "/tmp/seedrun/repo"
-    shutil.rmtree("/tmp/seedrun", ignore_errors=True)
+    repo = RUN + "/repo"
+    shutil.rmtree(RUN, ignore_errors=True)
     subprocess.run(["git", "-C", "/repo", "worktree", "prune"], check=True)
     subprocess.run(["git", "-C", "/repo", "worktree", "add", "-q", "--detach", repo, "HEAD"], check=True)
     env["VERIF_REPO"] = repo
-    env["VERIF_EVIDENCE_DIR"] = "/tmp/seedrun/evidence"
+    env["VERIF_EVIDENCE_DIR"] = RUN + "/evidence"
+    if LANE:
+        env["VERIF_FACTS_LANE"] = LANE.split("/")[0]
 try:
     for s in seeds:
         patch = "%s/seeded/%s/patch.diff" % (V, s)
@@ -61,8 +82,8 @@ try:
 finally:
     if not inplace:
         subprocess.run(["git", "-C", "/repo", "worktree", "remove", "--force", repo])
-        shutil.rmtree("/tmp/seedrun", ignore_errors=True)
-    json.dump(res, open(V + "/seeded/RESULTS.json", "w"), indent=1, sort_keys=True)
+        shutil.rmtree(RUN, ignore_errors=True)
+    json.dump(res, open(RESFILE, "w"), indent=1, sort_keys=True)
     if inplace:
         for p in props:
             subprocess.run([V + "/check", p], capture_output=True, text=True, cwd=V)
